@@ -30,13 +30,32 @@ func runC05(c *harness.Ctx) {
 	var victim net.Conn
 	var ref *refEnd
 	var early int
+	seedTamper := ""
+	dialRejected := false
 	if victimIsClient {
 		c.Info["victim"] = "real client"
 		cf, _ := transports.Get("obfs4").ClientFactory("")
 		seed := make([]byte, 24)
 		c.Rand.Fill("ref.seed", seed)
+		// the very first frame, the PRNG seed frame that trails the handshake
+		// response, can be the damaged one (alone, or followed by an intact copy)
+		seedTamper = []string{"", "", "", "flip", "flip-then-intact-copy"}[t.Draw("seedtamper", 5)]
+		var mutate func([]byte) []byte
+		if seedTamper != "" {
+			at, bit := 2+t.Draw("seedbyte", 43), uint(t.Draw("seedbit", 8))
+			mutate = func(f []byte) []byte {
+				bad := append([]byte(nil), f...)
+				bad[at] ^= 1 << bit
+				c.S.Count("fault.tamper-seed-frame-"+seedTamper, 1)
+				if seedTamper == "flip-then-intact-copy" {
+					// the genuine 43-byte box follows the damaged frame
+					return append(bad, f[2:]...)
+				}
+				return bad
+			}
+		}
 		c.S.Go("r/accept", func() {
-			hs := refServerHandshake(c, link.B, rid, refServerOpts{PadLen: t.Draw("spad", 300), Seed: seed})
+			hs := refServerHandshake(c, link.B, rid, refServerOpts{PadLen: t.Draw("spad", 300), Seed: seed, SplitSeed: t.Draw("splitseed", 3) == 2, SeedFrameMutate: mutate})
 			if hs.End == nil {
 				c.Violate("C05/setup", "reference server handshake failed: %v %v", hs.ParseErr, hs.ReadErr)
 				return
@@ -51,6 +70,10 @@ func runC05(c *harness.Ctx) {
 			}
 			conn, err := cf.Dial("tcp", "x:1", dialTo(link.A), pa)
 			if err != nil {
+				if seedTamper != "" {
+					dialRejected = true // the damage was reported while the handshake call was still running
+					return
+				}
 				c.Violate("C05/setup", "Dial: %v", err)
 				return
 			}
@@ -80,7 +103,12 @@ func runC05(c *harness.Ctx) {
 			early = len(hs.Early)
 		})
 	}
-	if c.S.Run(func() bool { return victim != nil && ref != nil }, 2*time.Minute) != sim.StopCond {
+	if c.S.Run(func() bool { return (victim != nil || dialRejected) && ref != nil }, 2*time.Minute); dialRejected {
+		c.Reached, c.Nontrivial = true, true
+		c.Feature("seed-frame-damage-rejected-by-dial")
+		return
+	}
+	if victim == nil || ref == nil {
 		if !c.S.Violated() {
 			c.Violate("C05/setup", "handshake did not complete")
 		}
@@ -131,6 +159,11 @@ func runC05(c *harness.Ctx) {
 		// move only the sealed boxes and leave each 2-byte length prefix in its
 		// slot: needs two neighbouring frames of equal length (the tail has them)
 		j = k
+	}
+	if seedTamper != "" {
+		// the seed frame was damaged and Dial did not object: nothing at all may
+		// be delivered and Read has to report it
+		op = "none-after-seed-frame-" + seedTamper
 	}
 	c.Info["op"], c.Info["at_frame"], c.Info["frames"] = op, j, k
 	c.Feature("op-" + op)
@@ -238,6 +271,12 @@ func runC05(c *harness.Ctx) {
 		for i := range frames {
 			emit(i)
 		}
+	default:
+		// damaged seed frame: everything that follows is intact traffic
+		intact = 0
+		for i := range frames {
+			emit(i)
+		}
 	}
 
 	var got int64
@@ -257,7 +296,10 @@ func runC05(c *harness.Ctx) {
 					return
 				}
 				got += int64(n)
-				if got > int64(intact) {
+				// (once the damage has been reported, what an application that
+				// nevertheless reads on receives must still be a prefix of what the
+				// peer wrote - checked above - but is no longer bounded by the damage)
+				if got > int64(intact) && rdErr == nil {
 					c.Violate("C05/delivered-past-damage", "victim delivered %d bytes although only %d precede the damaged frame (op %s at frame %d)", got, intact, op, j)
 					return
 				}
